@@ -325,8 +325,8 @@ def read(fr: dict) -> dict:
         if sub == S_TIMER_STATUS:
             if rlen == 0 and rcount == 0:
                 return {"kind": "timer_status_request", **hdr}
-            if rlen < 5:
-                return {"kind": UNDEF, "why": "timer stride", **hdr}
+            if rlen < 9:
+                return {"kind": UNDEF, "why": "timer stride below the known 9-byte layout", **hdr}
             return {"kind": "timer_status", "timers": [dec_timer_record(r) for r in recs], **hdr}
         if sub == S_ZONE_CTRL:
             if rlen < 4:
